@@ -446,7 +446,7 @@ func sizeOne(inm J, arg interface{}, em *Emitter) {
 		of := size.Of(arg)
 		stat := int64(-7)
 		if arg != nil {
-			first := strings.SplitN(size.Stat(arg, 0, 0), "\n", 2)[0]
+			first := strings.SplitN(size.Stat(arg, 0, 0, make([]interface{}, 0, 2)...), "\n", 2)[0]
 			// "the first line of Stat reports the same number": the number after the last ": " in today's format;
 			// should the wording change, the last integer on the line
 			i := strings.LastIndex(first, ": ")
